@@ -247,7 +247,16 @@ def c08(d, run):
     _known(d, run, "D7")
 
 
+def _liveness(d, run):
+    r = d.tlc_mc("MC_Cache.tla", "MC_Cache_live.cfg", run.workdir, workers=4, timeout=1800)
+    run.add_mc(r, "MC_Cache_live (liveness under weak fairness of processor and client continuation steps: every started call "
+                  "returns unless known finding D6 occurred; after close() both workers stop; 2 clients x 2 calls of insert/wait/clear/close)")
+    if r["violated"]:
+        run.violation("specification Cache.tla violates liveness %s in MC_Cache_live.cfg" % r["violated"], replay_lines=[r["out"][-8000:]])
+
+
 def c10(d, run):
+    _liveness(d, run)
     h = cache_stage(d, run, "real cache deviates from Cache.tla (wait barrier / termination)",
                     ["life", "conc"],
                     [("life", "sync", 40, 300), ("conc_clear", "sync", 25, 150), ("conc", "sync", 15, 100)],
@@ -262,6 +271,7 @@ def c10(d, run):
 
 
 def c12(d, run):
+    _liveness(d, run)
     h = cache_stage(d, run, "real cache deviates from Cache.tla (close protocol)",
                     ["life"],
                     [("life", "sync", 50, 400)],
